@@ -536,13 +536,16 @@ func cmdReplay(args []string) int {
 	r := &report{ID: rf.Property, verif: *verif, repo: *repo, ld: ld}
 	nr := &nativeRunner{rep: r}
 	defer nr.close()
-	res, err := nr.run(rf.Rel, ld, []nativeCase{{Harness: rf.Harness, Tier: rf.Tier, Draws: rf.Draws}})
+	if rf.Label == "terminates" {
+		os.Setenv("VERIF_REPLAY_DEADLINE_S", "20")
+	}
+	res, err := nr.run(rf.Rel, ld, []nativeCase{{Harness: rf.Harness, Tier: rf.Tier, Draws: rf.Draws, Expect: rf.Label}})
 	if err != nil {
 		fmt.Fprintln(os.Stderr, err)
 		return 2
 	}
 	fmt.Printf("replay %s %s: native status=%s label=%q msg=%q obs=%v\n", rf.Property, rf.Harness, res[0].Status, res[0].Label, res[0].Msg, res[0].Obs)
-	if res[0].Status == "assert" || res[0].Status == "panic" {
+	if res[0].Status == "assert" || res[0].Status == "panic" || (rf.Label == "terminates" && res[0].Status == "timeout") {
 		fmt.Printf("VIOLATION property=%s replay=%s\n", rf.Property, *file)
 		return 1
 	}
